@@ -89,7 +89,19 @@ def run (d : DSt) (args : List Str) (impl : String) : DSt × String × String ×
       ({ d with s := s' }, out, out, "expire")
     else bad
   | [c, t] =>
-    if c = str "req" ∨ c = str "late" then runReq d c t [] impl
+    if c = str "serial" then
+      -- the callbacks of a query event are tasks of the resource's group (`Model/Pool.lean`, C01):
+      -- neither overlaps another callback of that group
+      let out := "serial call-waits-for-callback=T callback-waits-for-call=T"
+      (d, out, out, "serial")
+    else if c = str "queued" then
+      -- `run` on [request, request, expire]: both requests precede the expiry in the group's
+      -- queue, so both are answered once and the nil call comes last
+      let (s', rs) := QueryEvent.run 0 {} [.request .ok [.notFound], .request .ok [.notFound], .expire]
+      let cnt (i : Nat) : Nat := ((rs.getD i []).filter isResponse).length
+      let out := s!"queued r1={cnt 0} r2={cnt 1} order={String.join (List.replicate s'.cbCalls "q,")}{String.join (List.replicate s'.nilCalls "nil,")}"
+      (d, out, out, "queued")
+    else if c = str "req" ∨ c = str "late" then runReq d c t [] impl
     else if c = str "start" then ({ typ := num t, s := {}, started := true }, "ok", "ok", "start")
     else if c = str "startfail" then
       let s := failedSubscribe
